@@ -14,9 +14,9 @@ def kind_ops(t, res):
     out = {}
     for kind in typerules.SUPPORTED:
         ops = t["op_of_kind"].get(kind, [])
-        if len(ops) != 1:
-            raise Inconclusive("node kind %s is not dispatched to exactly one operator function (%s)" % (kind, ops))
-        out[kind] = ops[0]
+        if not ops:
+            raise Inconclusive("node kind %s is not dispatched to an operator function" % kind)
+        out[kind] = list(ops)
     return out
 
 
@@ -29,7 +29,7 @@ def run(res, f, tier):
     obligations = 0
     discharged = 0
     samples = []
-    for kind, fn in sorted(ops.items()):
+    for kind, fn in sorted((k, fn_) for k, fns in ops.items() for fn_ in fns):
         cells = t["cells"][fn]
         supported = set(typerules.SUPPORTED[kind])
         for combo, outs in sorted(cells.items()):
